@@ -19,7 +19,7 @@ DISAGREEMENT_IS_TIE_ONLY = False
 MODELLED_FUNCS = {'sugar/core/meta.py': ['Attr.__init__', 'Attr.__getitem__', 'Attr.__setitem__', 'Attr.__delitem__', 'Attr.__getattr__',
                                          'Attr.copy', 'Attr.update', 'Attr.__iter__', 'Attr.__len__'],
                   'sugar/core/seq.py': ['BioSeq.__add__', 'BioSeq.__iadd__', 'BioSeq.reverse', 'BioSeq.copy', 'BioSeq.fts', 'BioSeq.id',
-                                        'BioBasket.__init__', 'BioBasket.reverse', 'BioBasket.copy', 'BioBasket.sort', 'BioBasket.filter',
+                                        'BioSeq.complement', 'BioSeq.rc', 'BioBasket.__init__', 'BioBasket.complement', 'BioBasket.rc', 'BioBasket.__setitem__', 'BioBasket.reverse', 'BioBasket.copy', 'BioBasket.sort', 'BioBasket.filter',
                                         '_BioSeqStr.lower', '_BioSeqStr.upper', '_BioBasketStr.__getattr__']}
 NO_SHRINK_KEYS = ['mapkind', 'obj', 'how', 'mk', 'sub', 'data', 'arg', 'a', 'b', 'operand']
 
@@ -722,10 +722,10 @@ def obj_do(regs, op):
         _, d, fn, j, q = op
         x = o_nav(regs[j], q)
         f = fn[0]
-        if f in ('reverse', 'lower', 'upper'):
+        if f in ('reverse', 'lower', 'upper', 'complement', 'rc'):
             if not isinstance(x, (BioSeq, BioBasket)):
                 raise _OOD(f)
-            r = x.reverse() if f == 'reverse' else getattr(x.str, f)()
+            r = getattr(x.str, f)() if f in ('lower', 'upper') else getattr(x, f)()
         elif f == 'iaddlit':
             if not isinstance(x, BioSeq):
                 raise _OOD(f)
@@ -798,6 +798,11 @@ def obj_do(regs, op):
             if not (isinstance(a, BioSeq) and isinstance(b, FeatureList)):
                 raise _OOD(f)
             a.fts = b
+            r = None
+        elif f == 'setitem':
+            if not (isinstance(a, BioBasket) and isinstance(b, BioSeq)):
+                raise _OOD(f)
+            a[fn[1]] = b
             r = None
         elif f == 'setref':
             if not isinstance(a, Attr) or (isinstance(b, collections.abc.Mapping) and not isinstance(b, Attr)):
@@ -939,11 +944,11 @@ def o_targets(o, limit=80):
 
 
 OBJ_PURE = [['copy'], ['copy'], ['slice'], ['slice'], ['addlit'], ['filterlen'], ['get'], ['get']]
-OBJ_INPL = ['reverse', 'lower', 'upper', 'iaddlit', 'sortlen', 'filterlen']
+OBJ_INPL = ['reverse', 'lower', 'upper', 'complement', 'rc', 'iaddlit', 'sortlen', 'filterlen']
 OBJ_MUT = ['setlit', 'setlit', 'delkey', 'setid', 'appendseq', 'appendfeat', 'appendlit', 'delidx', 'clear']
-OBJ_BIN = ['is', 'is', 'extend', 'setfts', 'setref']
+OBJ_BIN = ['is', 'is', 'extend', 'setfts', 'setref', 'setitem']
 OBJ_WANT = {'slice': ('Seq', 'Basket', 'Fts'), 'addlit': ('Seq',), 'filterlen': ('Basket',), 'reverse': ('Seq', 'Basket'),
-            'lower': ('Seq', 'Basket'), 'upper': ('Seq', 'Basket'), 'iaddlit': ('Seq',), 'sortlen': ('Basket',),
+            'lower': ('Seq', 'Basket'), 'upper': ('Seq', 'Basket'), 'complement': ('Seq', 'Basket'), 'rc': ('Seq', 'Basket'), 'iaddlit': ('Seq',), 'sortlen': ('Basket',),
             'setlit': ('Meta', 'Attr', 'dict'), 'delkey': ('Meta', 'Attr', 'dict'), 'setid': ('Seq',), 'appendseq': ('Basket',),
             'appendfeat': ('Fts',), 'appendlit': ('list',), 'delidx': ('Basket', 'Fts', 'list'), 'clear': ('Basket', 'Fts', 'list'),
             'copy': ('Seq', 'Basket', 'Fts', 'Meta', 'Attr')}
@@ -1027,7 +1032,7 @@ def gen_obj_case(rng, nops):
                 else:
                     f = rng.choice(OBJ_BIN)
                     wa, wb = {'is': (None, None), 'extend': (('Basket', 'Fts'), None), 'setfts': (('Seq',), ('Fts',)),
-                              'setref': (('Meta', 'Attr'), ('Attr', 'list', 'Fts', 'Meta'))}[f]
+                              'setref': (('Meta', 'Attr'), ('Attr', 'list', 'Fts', 'Meta')), 'setitem': (('Basket',), ('Seq',))}[f]
                     ga = _pick(rng, regs, wa, live)
                     if ga is None:
                         continue
@@ -1039,6 +1044,9 @@ def gen_obj_case(rng, nops):
                     if f == 'is' and rng.random() < 0.4:
                         gb = ga
                     fn = [f] + ([rng.choice(OBJ_KEYS)] if f == 'setref' else [])
+                    if f == 'setitem':
+                        n = len(o_elems(ga[2]))
+                        fn.append(rng.choice([0, -1, n - 1, n, 1]))
                     op = ['bin', rng.choice([None] + list(range(NREGS))) if f in ('extend',) else None, fn, ga[0], ga[1], gb[0], gb[1]]
                 ops.append(op)
                 try:
@@ -1086,7 +1094,8 @@ def coq_oop(op):
         return '(OPure %s %s %s %s)' % (coq_nat(i), f, coq_nat(j), coq_path(q))
     if name == 'inpl':
         _, d, fn, j, q = op
-        f = {'reverse': 'FReverse', 'lower': 'FLower', 'upper': 'FUpper', 'sortlen': 'FSortLen'}.get(fn[0]) or {
+        f = {'reverse': 'FReverse', 'lower': 'FLower', 'upper': 'FUpper', 'sortlen': 'FSortLen', 'complement': 'FComplement',
+             'rc': 'FRc'}.get(fn[0]) or {
             'iaddlit': lambda: '(FIaddLit %s)' % coq_bs(fn[1]), 'filterlen': lambda: '(FFilterLen %s)' % coq_z(fn[1])}[fn[0]]()
         return '(OInpl %s %s %s %s)' % (coq_opt(d, coq_nat), f, coq_nat(j), coq_path(q))
     if name == 'mut':
@@ -1098,7 +1107,8 @@ def coq_oop(op):
         return '(OMut %s %s %s)' % (f, coq_nat(j), coq_path(q))
     if name == 'bin':
         _, d, fn, j, q, j2, q2 = op
-        f = {'is': 'BIs', 'extend': 'BExtend', 'setfts': 'BSetFts'}.get(fn[0]) or '(BSetRef %s)' % coq_bs(fn[1])
+        f = {'is': 'BIs', 'extend': 'BExtend', 'setfts': 'BSetFts'}.get(fn[0]) or (
+            '(BSetItem %s)' % coq_z(fn[1]) if fn[0] == 'setitem' else '(BSetRef %s)' % coq_bs(fn[1]))
         return '(OBin %s %s %s %s %s %s)' % (coq_opt(d, coq_nat), f, coq_nat(j), coq_path(q), coq_nat(j2), coq_path(q2))
     raise RuntimeError(name)
 
@@ -1219,10 +1229,44 @@ def histkey(case, got):
     return ks
 
 
+def _case_keys(case):
+    """every mapping KEY a case uses (keys of dict literals, key arguments, key path elements) -- operation names are not keys"""
+    keys = set()
+
+    def lit(j):
+        if isinstance(j, dict):
+            for k, v in j.items():
+                keys.add(k)
+                lit(v)
+        elif isinstance(j, list):
+            for v in j:
+                lit(v)
+    if case.get('kind') == 'attr':
+        lit(case.get('d'))
+        for o in case.get('ops', []):
+            keys.update(e for e in o[1] if isinstance(e, str))
+            if o[0] in ('setitem', 'setattr', 'setdefault', 'get', 'delitem', 'delattr', 'getitem', 'getattr', 'pop', 'contains'):
+                keys.add(o[2])
+            for a in o[2:]:
+                if isinstance(a, (dict, list)):
+                    lit(a)
+    elif case.get('kind') == 'heap':
+        for o in case.get('ops', []):
+            for a in o[1:]:
+                if isinstance(a, dict):
+                    lit(a)
+                elif isinstance(a, list):
+                    keys.update(e for e in a if isinstance(e, str))
+                    lit([e for e in a if isinstance(e, (dict, list))])
+                elif isinstance(a, str):
+                    keys.add(a)
+    return keys
+
+
 def features(case, got):
     f = {'kind': case.get('kind')}
-    blob = json.dumps(case)
-    f['key_in_reserved_set'] = bool(case.get('reserved_key')) or any(json.dumps(k) in blob for k in MAPPING_METHODS)
+    # F20 region: a case counts only if one of its KEYS is reserved (operation names such as copy / get / clear do not)
+    f['key_in_reserved_set'] = bool(case.get('reserved_key')) or any(k in MAPPING_METHODS for k in _case_keys(case))
     return f
 
 
@@ -1238,7 +1282,7 @@ RULE = ('kind attr: histories of 1-12 mapping operations (item/attribute set, ge
         'histories of 1-12 public operations (227 operations on BioSeq, BioBasket, FeatureList, Feature, Location, Meta) on real objects '
         'and their copies with deep structural snapshots, id()-reachability and write-footprint checks, plus re-wrap checks of every '
         'constructor / non-in-place operation; kind obj: programs of 2-12 steps over 4 variables holding real BioSeq / BioBasket / '
-        'FeatureList / Meta objects (26 public operations at random reachable receivers, grown while running so that receivers exist; '
+        'FeatureList / Meta objects (29 public operations at random reachable receivers, grown while running so that receivers exist; '
         'empty baskets / sequences / feature lists included) compared with the object-identity model on every step result and on the '
         'canonical object-graph dump; non-trivial = history that reaches a nested object or mixes operation kinds (attr), or '
         'contains copy / re-wrap / reference assignment (heap)')
@@ -1255,7 +1299,7 @@ TRUSTED = ['copy.deepcopy, object identity, reference semantics and collections.
 ASSUMPTIONS = ['metadata keys are Latin-1 str outside the reserved set R = dir(Meta) + __dunder__ names (open finding F20)',
                'literal values are None/bool/int/str/list/dict (no floats, tuples, sets) in the modelled kinds',
                'heap kind: objects passed to copy() have no internal sharing and no cycles (decided by the model: tree_shaped)']
-LEVEL_TEXT = ('Machine-checked Coq theorems (52, all closed under the global context) over three hand-written models '
+LEVEL_TEXT = ('Machine-checked Coq theorems (57, all closed under the global context) over three hand-written models '
               '(every statement of the modelled Attr methods is executed by the quick tier). '
               '(a) Value level (C18_Model.v): get/set/delete laws incl. key order; attribute access = key access and get-after-set at ANY path; '
               'recursive Mapping->Attr conversion (to_dict(Attr(d)) = d, conversion idempotent); an invariant (unique keys, an Attr never directly holds a '
@@ -1269,8 +1313,8 @@ LEVEL_TEXT = ('Machine-checked Coq theorems (52, all closed under the global con
               'the value-level operation on the deep read (setitem of a literal, delitem, list append, at key paths). '
               '(d) Object-identity level (C18_Obj.v): BioSeq / BioBasket / FeatureList / Feature / LocationTuple / Location / Meta / Attr / list '
               'as a heap of objects with identities; copy() = deepcopy is a GRAPH copy (internal sharing and cycles preserved); slicing / + / '
-              're-wrapping share meta.fts and nested metadata by design; every modelled public operation (26: constructors, copy, slicing of '
-              'sequences / baskets / feature lists, +, filter, reverse, str.lower/upper, +=, sort(len), filter(inplace), item set / del on '
+              're-wrapping share meta.fts and nested metadata by design; every modelled public operation (29: constructors, copy, slicing of '
+              'sequences / baskets / feature lists, +, filter, reverse, complement, rc, str.lower/upper, +=, sort(len), filter(inplace), basket[i] = seq, item set / del on '
               'metadata with conversion, id setter, append of sequences / features / literals, del [i], clear, container +=, fts setter, '
               'assignment of an existing object, is) is a PROGRAM for a capability-checked interpreter, and the theorems are proved once for '
               'the interpreter: obj_interp_separation (any program keeps the two-colour invariant and touches no cell of the other colour), '
@@ -1283,7 +1327,12 @@ LEVEL_TEXT = ('Machine-checked Coq theorems (52, all closed under the global con
               'elements, scalars and identity structure incl. internal sharing and cycles), obj_inplace_elements (on a basket of any size '
               'element-wise transformations keep the same element objects in order, sort gives a permutation, filter(inplace) a selection in '
               'order; class and metadata object kept), obj_extend_elements (+= : old elements followed by the operand elements, receiver '
-              'returned). (e) conv_on_every_entry (construction, item assignment, attribute assignment, update(), setdefault store the SAME '
+              'returned), obj_pure_returns_new (copy / slicing / + / filter return an object that did not exist before), '
+              'obj_step_footprint / obj_interp_footprint (WRITE FOOTPRINT: for ANY set of objects that contains the operands and is closed '
+              'under references -- e.g. everything reachable from them -- an operation changes no object outside the set), '
+              'obj_graph_copy_total / obj_copy_succeeds (on a heap without dangling references, hence on every reachable state, the fuelled '
+              'DFS terminates within its fuel with a closed set and copy() of every existing object SUCCEEDS: the fail-closed branch is dead). '
+              '(e) conv_on_every_entry (construction, item assignment, attribute assignment, update(), setdefault store the SAME '
               'recursively converted value, read back by key and by attribute), conv_list_not_descended; str_namespace_agrees over the '
               'REGENERATED table of observed behaviour (coq/gen/G_c18_str.v): BioBasket.str.<m>() is the basket exactly when '
               'BioSeq.str.<m>() works in place, for baskets with 0, 1 and 2 sequences (29 methods). '
@@ -1295,14 +1344,16 @@ LEVEL_NOTE = ('Proved for the models only; the models are tied to /repo by testi
               'All 24 statements of the 9 modelled Attr methods (meta.py) are executed in the quick tier; none is unreachable. '
               'Trusted: Coq kernel/vm_compute, copy.deepcopy and CPython reference semantics (heap model: deepcopy as read-and-rebuild, exact '
               'for tree-shaped objects, decided by tree_shaped; object model: deepcopy as graph copy over the reachable set computed by a '
-              'fuelled DFS, failing closed -- OutOfDomain -- if the set were not closed), MutableMapping mixins, collections.UserList, the harness. '
-              'Object model: residues are modelled for reverse / lower / upper / + / slicing only (no complement / translate), feature '
+              'fuelled DFS, failing closed -- OutOfDomain -- if the set were not closed; proved never to happen on reachable states), MutableMapping mixins, collections.UserList, the harness. '
+              'Object model: residues are modelled for reverse / complement / rc / lower / upper / + / slicing only (no translate), feature '
               'coordinates are carried but never transformed, LocationTuple and Location are immutable in the model (Location.start/stop '
               'edits re-sort on deepcopy: tested only), set operators (&, |, -, ^) compare by deep equality and are tested only, '
               ''
-              'TESTED ONLY (not modelled in Coq): rc / complement / translate / match / find_orfs / set operators / Feature and Location '
+              'seq.fts = x on a sequence whose metadata has no id item raises AttributeError AFTER assigning (setter reads self.id): outside the modelled domain. '
+              'A disagreement counts as the open finding F20 only if one of the KEYS of the case is reserved (operation names such as copy / get / clear do not). '
+              'TESTED ONLY (not modelled in Coq): rc(update_fts=True) / translate / match / find_orfs / set operators / Feature and Location '
               'edits -- 800/30000 random histories of 227 public operations (secondary operands that are sugar objects are snapshotted too) per '
-              'run (subjects also read from GFF -- feature and location meta._gff -- and from SJSON), 120/2000 exhaustive nested-edit sweeps (every reachable object of one side edited, both directions, depth up to 11), a 5160-case matrix of match/matchall/find_orfs/copy-chains over all reading-frame selections, 33 re-wrap checks, an 81-case matrix of mapping pairs differing only in None-valued keys through 14 equality forms, a 210-case matrix of in-place operators with tuple/generator/dict-view/iterator operands (identity, alias, meta, content), a '
+              'run (subjects also read from GFF -- feature and location meta._gff -- and from SJSON, and EMPTY / one-element baskets, feature lists, sequences, metadata), 120/2000 exhaustive nested-edit sweeps (every reachable object of one side edited, both directions, depth up to 11), a 5160-case matrix of match/matchall/find_orfs/copy-chains over all reading-frame selections, 33 re-wrap checks, an 81-case matrix of mapping pairs differing only in None-valued keys through 14 equality forms, a 210-case matrix of in-place operators with tuple/generator/dict-view/iterator operands (identity, alias, meta, content), a '
               '351-case matrix of mapping kinds x entry paths. Not proved: refinement for reference assignment / paths through list '
               'indices; the heap analogue of the "Attr never holds a plain dict" invariant. '
               'Domain excludes reserved keys R = dir(Meta) + __dunder__ names: open finding F20 (keys such as items/update/copy shadow '
@@ -2410,7 +2461,25 @@ def r_attr(rng):
     return a
 
 
-BUILDERS_EXTRA = {'gff_fts': r_gff_fts, 'gff_basket': r_gff_basket, 'gff_seq': lambda rng: r_gff_basket(rng)[0],
+def _r_empty(kind):
+    def f(rng):
+        from sugar import BioSeq, BioBasket
+        from sugar.core.fts import FeatureList
+        from sugar.core.meta import Meta
+        if kind == 'basket0':
+            return BioBasket([], meta=r_metalit(rng, 2))
+        if kind == 'basket1':
+            return BioBasket([r_seq(rng, 's1')], meta=r_metalit(rng, 1))
+        if kind == 'fts0':
+            return FeatureList([])
+        if kind == 'seq0':
+            return BioSeq('', id='e', meta=r_metalit(rng, 1))
+        return Meta({})
+    return f
+
+
+BUILDERS_EXTRA = {'basket0': _r_empty('basket0'), 'basket1': _r_empty('basket1'), 'fts0': _r_empty('fts0'), 'seq0': _r_empty('seq0'),
+                  'meta0': _r_empty('meta0'), 'gff_fts': r_gff_fts, 'gff_basket': r_gff_basket, 'gff_seq': lambda rng: r_gff_basket(rng)[0],
                   'sjson_basket': r_sjson_basket, 'sjson_seq': lambda rng: r_sjson_basket(rng)[0], 'attr': r_attr}
 
 
@@ -2690,7 +2759,8 @@ def f20_probe(key='items'):
 def extra_checks(rng, tier, cov):
     nh = 30000 if tier == 'thorough' else 800
     import random as _random
-    kinds = ['seq', 'basket', 'fts', 'meta', 'gff_basket', 'seq', 'basket', 'gff_fts', 'attr', 'sjson_basket']
+    kinds = ['seq', 'basket', 'fts', 'meta', 'gff_basket', 'seq', 'basket', 'gff_fts', 'attr', 'sjson_basket',
+             'basket0', 'basket1', 'fts0', 'seq0', 'meta0']      # EMPTY / one-element receivers are legal values
     cov['histories'] = 0
     for i in range(nh):
         seed = rng.getrandbits(48)
